@@ -228,6 +228,8 @@ def C08_3(ctx, facts):
     ok = False
     for (b, i, s) in new.aggregates("server::conn::auto::ReadVersion"):
         r = s["r"]
+        if "version" not in r["fields"] or "filled" not in r["fields"]:
+            continue      # no verdict field: what a truncated preface means is then decided by C08.3 alone (reported there)
         o = r["ops"][r["fields"].index("version")]
         d = new.unique_def(op_place(o)["l"]) if op_place(o) else None
         ok = bool(d and d[0] == "stmt" and d[3]["r"].get("v") == "Http2")
